@@ -1,22 +1,24 @@
 #!/bin/bash
-# usage: tools/run_seeds.sh C02 C03 ...   (seeds under /tmp/seeds/<id>/<k>); confirmed ones are copied to /verif/seeded/<id>-<k>/
+# usage: [SEEDS_ROOT=/tmp/seeds2 SEED_TAG=r2-] tools/run_seeds.sh C02 C03 ...   (seeds under $SEEDS_ROOT/<id>/<k>)
+# confirmed ones are copied to /verif/seeded/<id>-<tag><k>/ together with result.json
+ROOT=${SEEDS_ROOT:-/tmp/seeds}
 for id in "$@"; do
-  for d in ${SEEDS_ROOT:-/tmp/seeds}/$id/*/; do
-    k=$(basename $d)
+  for d in $ROOT/$id/*/; do
     [ -f $d/patch.diff ] || continue
-    res=$(/venv/bin/python /verif/tools/run_seed.py $d 2>/dev/null | tail -1)
-    echo "$res" | /venv/bin/python -c "
+    export SEED_DIR=$d SEED_K=$(basename $d) SEED_TAG=${SEED_TAG:-}
+    /venv/bin/python /verif/tools/run_seed.py $d 2>/dev/null | tail -1 | /venv/bin/python -c '
 import json,sys,os,shutil
 d=json.loads(sys.stdin.read())
-print(d['property'], '$k', (d.get('title') or '')[:90])
-print('   confirmed',d.get('confirmed'),'| detected',d.get('detected'),'| with_input',d.get('with_input'),'|', d.get('tests_failed'), d.get('error') or '', '| demo', d.get('demo_clean'), d.get('demo_patched'))
-print('   ', [ (r[1], r[2]) if r[0]=='spec-failure-on-implementation' else (r[0], r[1]) for r in (d.get('replays') or [])][:4])
-if d.get('confirmed'):
-    dst="/verif/seeded/%s-%s%s"%(d["property"],"${SEED_TAG:-}","$k")
+k=os.environ["SEED_K"]; tag=os.environ.get("SEED_TAG",""); src=os.environ["SEED_DIR"]
+print(d["property"], tag+k, (d.get("title") or "")[:90])
+print("   confirmed",d.get("confirmed"),"| detected",d.get("detected"),"| with_input",d.get("with_input"),"|", d.get("tests_failed"), d.get("error") or "", "| demo", d.get("demo_clean"), d.get("demo_patched"))
+print("   ", [ (r[1], r[2]) if r[0]=="spec-failure-on-implementation" else (r[0], r[1]) for r in (d.get("replays") or [])][:4])
+if d.get("confirmed"):
+    dst="/verif/seeded/%s-%s%s"%(d["property"],tag,k)
     os.makedirs(dst, exist_ok=True)
-    for f in ('patch.diff','demo.py','meta.json'):
-        shutil.copy(os.path.join('$d',f), dst)
-    json.dump({k2:d.get(k2) for k2 in ('property','title','confirmed','demo_clean','demo_patched','tests_same','detected','with_input','check_exit','violations','replays','summary')}, open(os.path.join(dst,'result.json'),'w'), indent=1)
-"
+    for f in ("patch.diff","demo.py","meta.json"):
+        shutil.copy(os.path.join(src,f), dst)
+    json.dump({k2:d.get(k2) for k2 in ("property","title","confirmed","demo_clean","demo_patched","tests_same","detected","with_input","check_exit","violations","replays","summary")}, open(os.path.join(dst,"result.json"),"w"), indent=1)
+'
   done
 done
